@@ -8,21 +8,19 @@ from .common import REAL
 from . import streamobjects as so
 
 EXPLANATION = (
-    "R-STATUS-TABLES: the method->status map of ExtendedToStreamDecorator and the status->method map "
-    "_status_map compose to the identity except error->failure; every final state other than 'exists' (and "
-    "'inprogress') has a _status_map entry; StreamSummary's dispatch covers every key plus 'exists'; every "
-    "emitted status is a member of STATES. R-CHUNK-OBLIGATIONS: abstract interpretation of "
-    "ExtendedToStreamDecorator._convert with each value yielded by content.iter_bytes() an *obligation*: "
-    "every chunk is passed to exactly one status(file_bytes=...) call before it is overwritten (so order is "
-    "preserved), never twice; per detail exactly one event has eof=True and it is the last file event of that "
-    "detail on every path, including the zero-chunk path (one empty eof chunk); the reason file and exactly "
-    "one final status follow all file events. Loops are closed by the fixed point, so the result holds for any "
-    "number of details and chunks. R-EVENT-FIELDS: every event carries test_id and timestamp, file events "
-    "carry file_name/file_bytes/mime_type (mime = repr(content_type)), the final one test_tags; startTest "
-    "emits 'inprogress' after the lazy startTestRun. R-REPLAY-ORDER: PlaceHolder.run replays start time, tags, "
-    "startTest, stop time, the stored outcome with details=, stopTest, tag removal; "
-    "StreamToExtendedDecorator runs each record's placeholder once against the adapted target. Identical "
-    "bytes and MIME render/re-parse are runtime value properties and are not decided."
+    'ExtendedToStreamDecorator and StreamToExtendedDecorator are constructed through their real constructors and driven '
+    'through histories of TestResult calls / stream events (ttsa.rules.streamobjects; everything they create -- records, '
+    'contents, PlaceHolders, tag contexts -- is interpreted by ttsa.objects; symbolic are only the target stream, the '
+    'decorated result, the test, the clock and details whose iter_bytes() hands out given chunks). R-CHUNK-OBLIGATIONS: for '
+    "details of 0 / 1 / several chunks the events a test produces are one 'inprogress', then per detail its chunks once and "
+    'in order with eof exactly on the last (an empty detail still gets its one eof event), then one final status event '
+    'last. R-EVENT-FIELDS: every event carries the test id, the supplied (else the current) time, file name / bytes / MIME '
+    'type, the final one the status and the tags current in the test. R-STATUS-TABLES: each of the six outcomes travels as '
+    "its documented status (error and failure both as 'fail') and is replayed as the documented outcome; tests left "
+    "'inprogress' / 'unknown' are replayed as failures when the run stops; 'exists' announcements are not tests. "
+    'R-REPLAY-ORDER: the round trip of every outcome through both decorators gives one startTest / outcome / stopTest '
+    'bracket with the same id, the supplied times, the tags, the skip reason and every non-empty detail with its bytes and '
+    'content type.'
 )
 
 
